@@ -64,6 +64,24 @@ where
     calibrate_image: bool,
 }
 
+#[cfg(feature = "verif-hooks")]
+impl<RK, DLY> LoRa<RK, DLY>
+where
+    RK: RadioKind,
+    DLY: DelayNs,
+{
+    /// Verification hook: the driver's belief about the radio
+    /// (`radio_mode`, `cold_start`, `calibrate_image`).
+    pub fn verif_mode(&self) -> (RadioMode, bool, bool) {
+        (self.radio_mode, self.cold_start, self.calibrate_image)
+    }
+
+    /// Verification hook: read-only access to the chip-specific driver.
+    pub fn verif_radio_kind(&mut self) -> &mut RK {
+        &mut self.radio_kind
+    }
+}
+
 impl<RK, DLY> LoRa<RK, DLY>
 where
     RK: RadioKind,
